@@ -40,6 +40,13 @@ def gen_notes():
     out.append('def noteCount : Nat := %d' % len(nf))
     out.append('/-- the index i with NOTE_FREQ[i] == 440.0 -/')
     out.append('def a440Index : Nat := %d' % a440[0])
+    # Tandy/PCjr tone generator: emit_tone plays 0 < f < 110 Hz as 110 Hz; as table indices:
+    # every index below the first entry that is >= 110 Hz becomes that entry (which must be 110.0 exactly)
+    low = [i for i, f in enumerate(nf) if f >= 110.]
+    if not low or nf[low[0]] != 110.0 or any(nf[i] >= nf[i + 1] for i in range(len(nf) - 1)):
+        raise ValueError('C42 translator: NOTE_FREQ is not increasing with an exact 110.0 entry')
+    out.append('/-- the index i with NOTE_FREQ[i] == 110.0: lower notes are played at this one on Tandy/PCjr -/')
+    out.append('def a110Index : Nat := %d' % low[0])
     ps = sound.PlayState()
     length = _recip(ps.length, 'PlayState.length')
     tempo = _recip(ps.tempo, 'PlayState.tempo')
